@@ -232,31 +232,17 @@ def check_zero_division(fx, ident, t, b):
               where=H.where(b), detail="%d divisions examined on paths feasible for a zero argument" % n_div)
 
 def check_powi(fx):
-    """R26 structure of powi is checked on the MIR directly (the body has a loop)."""
+    """R26: |n| is taken without overflow (no i32::abs anywhere below powi)."""
     rep = fx.rep; f = fx.f
     b = f.get("TwoFloat::powi")
     if b is None:
         rep.fail("R26", "TwoFloat::powi", "anchor-lost:powi", "TwoFloat::powi not found (reason=anchor-lost)"); return
-    mir = b.mir
-    # special-case table: the first switch on the exponent parameter
-    sw = None
-    for blk in mir["blocks"]:
-        t = blk["t"]
-        if t["k"] == "switch" and (t["d"].get("copy") or t["d"].get("move") or {}).get("l") == 2 and not (t["d"].get("copy") or t["d"].get("move"))["p"]:
-            sw = t; break
-    vals = sorted(vg.to_signed("i32", int(v)) for v in sw["vals"]) if sw else []
-    rep.check(vals == [-1, 0, 1], "R26", "powi special cases", "powi-cases", "powi dispatches on exponents %s, expected 0, 1, -1 then the general loop" % vals, where=H.where(b), detail=vals)
-    # calls made by powi: recip (for -1 and negative n), MulAssign in the loop, nothing else numeric
     calls = []
-    for blk in mir["blocks"]:
+    for blk in b.mir["blocks"]:
         t = blk["t"]
         if t["k"] == "call" and "f" in t:
             r = t["f"].get("res") or t["f"]
-            if r.get("local"):
-                cb = f.by_key.get(r["key"])
-                calls.append(cb.ident() if cb else r["def"])
-            else:
-                calls.append(F.norm_path(r["def"]))
+            calls.append(F.norm_path(r["def"]))
     absent = [c for c in calls if c in ("core::num::<impl i32>::abs",)]
     rep.check(not absent, "R26", "powi exponent magnitude without overflow", "powi-abs", "powi takes |n| with i32::abs, which overflows for i32::MIN", where=H.where(b),
               detail="uses %s" % [c for c in calls if "abs" in c])
@@ -879,47 +865,86 @@ def check_powi_loop(fx):
     b = f.get("TwoFloat::powi")
     if b is None:
         return
-    ex = vg.Exec(f, vg.Policy(f, "op"), loops="havoc")
+    N = fx.N
+    s = P(0)
+    one = N.norm(TFv(1.0, 0.0).t)
+    recip = N.norm(mk("call", "TwoFloat::recip", s))
+    # special cases by specialising the exponent to a constant (all tests on n fold)
+    want = {0: IF(fcmp("eq", V(s, "TF").hi, 0.0), IF(fcmp("eq", V(s, "TF").lo, 0.0), NAN_LEAF, ("leaf", one, ())), ("leaf", one, ())),
+            1: ("leaf", s, ()), -1: ("leaf", recip, ())}
+    oks = {}
+    for n, ref in want.items():
+        ex1 = vg.Exec(f, vg.Policy(f, "op", keep=H.primitive_idents(f), inline_private=True), loops="havoc")
+        try:
+            tn = ex1.run_body(b, args=[None, mk("const", "i32", vg.from_signed("i32", n))])
+            tn = D.map_terms(tn, N.norm)
+            oks[n] = D.equivalent(tn, D.map_terms(ref, N.norm), leaf_eq_nan) is None
+        except (vg.Unsupported, RuntimeError):
+            oks[n] = False
+    rep.check(all(oks.values()), "R26", "powi special cases n = 0, 1, -1", "powi-special",
+              "powi special cases deviate: n=0 -> (0^0 ? NaN : 1) %s; n=1 -> self %s; n=-1 -> 1/self %s" % (oks.get(0), oks.get(1), oks.get(-1)), where=H.where(b),
+              detail="0 -> NaN for 0^0 else 1; 1 -> self; -1 -> recip(self)")
+    ex = vg.Exec(f, vg.Policy(f, "op", keep=H.primitive_idents(f), inline_private=True), loops="havoc")
     try:
         t = ex.run_body(b)
     except vg.Unsupported as u:
         rep.fail("R26", "powi loop", "unsupported:powi", "cannot analyse powi: %s" % u, where=H.where(b)); return
-    N = fx.N
     t = vg.map_tree(t, N.norm)
     def fail(msg):
         rep.fail("R26", "powi square-and-multiply loop", "powi-loop", "powi's general case is not binary exponentiation on |n| followed by an optional reciprocal: " + msg, where=H.where(b),
                  data={"tree": vg.show(t)[:3000]})
-    if t[0] != "switch" or t[1] is not P(1):
-        return fail("no dispatch on the exponent")
-    arms = dict(t[2])
-    one = N.norm(TFv(1.0, 0.0).t)
-    s = P(0)
-    nan_or_one = arms.get(0)
-    ok0 = nan_or_one is not None and D.equivalent(nan_or_one, IF(fcmp("eq", V(s, "TF").hi, 0.0), IF(fcmp("eq", V(s, "TF").lo, 0.0), NAN_LEAF, ("leaf", one, ())), ("leaf", one, ())), leaf_eq_nan) is None
-    ok1 = arms.get(1) == ("leaf", s, ())
-    okm1 = arms.get(0xFFFFFFFF) == ("leaf", mk("call", "TwoFloat::recip", s), ())
-    rep.check(ok0 and ok1 and okm1, "R26", "powi special cases n = 0, 1, -1", "powi-special",
-              "powi special cases deviate: n=0 -> (0^0 ? NaN : 1) %s; n=1 -> self %s; n=-1 -> recip %s" % (ok0, ok1, okm1), where=H.where(b), detail="0 -> NaN for 0^0 else 1; 1 -> self; -1 -> recip(self)")
-    g = t[3]
+    # walk to the loop: follow the branch an exponent outside {0, 1, -1} takes
+    def only_exponent(c):
+        ns = [n for n in all_nodes(c) if tag(n) in ("param", "havoc", "field", "call")]
+        return all(n is P(1) for n in ns if tag(n) == "param") and not any(tag(n) in ("havoc", "field", "call") for n in ns) and any(n is P(1) for n in ns)
+    g = t
+    for _ in range(12):
+        if g[0] == "switch" and g[1] is P(1):
+            g = g[3]; continue
+        if g[0] == "if" and tag(g[1]) == "cmp" and g[1][1] in ("eq", "ne") and only_exponent(g[1]):
+            g = g[3] if g[1][1] == "eq" else g[2]; continue
+        break
     entries = [e for e in ex.loop_entries if e[0] == b.ident()]
     if not entries:
         return fail("no loop found")
     entry = entries[0][2]
     hv_of = {hv: (l, before) for l, (before, hv) in entry.items()}
     # shape: if N > 0 { if (N & 1) != 0 {back} else {back} } else { if n > 0 {ret R} else {ret recip(R)} }
-    if g[0] != "if" or tag(g[1]) != "cmp" or g[1][1] != "gt" or tag(g[1][3]) != "havoc":
+    def uconst(t, v):
+        return tag(t) == "const" and t[1] == "u32" and t[2] == v
+    def pos_test(c):
+        """(N, polarity): c true  <=>  N > 0 (polarity True) or N == 0 (False), for an unsigned havoc N"""
+        if tag(c) == "cmp" and tag(c[3]) == "havoc" and uconst(c[4], 0):
+            if c[1] in ("gt", "ne"):
+                return c[3], True
+            if c[1] in ("eq", "le"):
+                return c[3], False
+        return None, None
+    if g[0] != "if":
+        return fail("no loop on the remaining exponent")
+    Nn, pol = pos_test(g[1])
+    if Nn is None:
         return fail("loop condition is not `remaining exponent > 0`")
-    Nn = g[1][3]
-    body, exit_ = g[2], g[3]
-    # n == 0 was dispatched earlier, so n > 0 and n >= 0 select the same arm here
-    if exit_[0] != "if" or exit_[1] not in (mk("cmp", "gt", "i32", P(1), mk("const", "i32", 0)), mk("cmp", "ge", "i32", P(1), mk("const", "i32", 0))):
+    body, exit_ = (g[2], g[3]) if pol else (g[3], g[2])
+    zero32 = mk("const", "i32", 0)
+    if exit_[0] != "if" or exit_[1] not in (mk("cmp", "gt", "i32", P(1), zero32), mk("cmp", "ge", "i32", P(1), zero32), mk("cmp", "lt", "i32", P(1), zero32), mk("cmp", "le", "i32", P(1), zero32)):
         return fail("result is not selected by n > 0")
-    rpos, rneg = exit_[2], exit_[3]
-    if rpos[0] != "leaf" or tag(rpos[1]) != "havoc" or rneg != ("leaf", mk("call", "TwoFloat::recip", rpos[1]), ()):
+    if exit_[1][1] in ("gt", "ge"):
+        rpos, rneg = exit_[2], exit_[3]
+    else:
+        rpos, rneg = exit_[3], exit_[2]
+    if rpos[0] != "leaf" or tag(rpos[1]) != "havoc" or rneg != ("leaf", N.norm(mk("call", "TwoFloat::recip", rpos[1])), ()):
         return fail("exit is not `n > 0 ? result : recip(result)`")
     R = rpos[1]
-    bit = mk("cmp", "ne", "u32", mk("i", "bitand", "u32", Nn, mk("const", "u32", 1)), mk("const", "u32", 0))
-    if body[0] != "if" or body[1] is not bit or body[2][0] != "backedge" or body[3][0] != "backedge":
+    low = mk("i", "bitand", "u32", Nn, mk("const", "u32", 1))
+    if body[0] != "if" or tag(body[1]) != "cmp" or body[1][3] is not low or body[2][0] != "backedge" or body[3][0] != "backedge":
+        return fail("loop body does not test the low bit of the remaining exponent")
+    bc = body[1]
+    if (bc[1] == "ne" and uconst(bc[4], 0)) or (bc[1] == "eq" and uconst(bc[4], 1)):
+        b_set, b_clear = body[2], body[3]
+    elif (bc[1] == "eq" and uconst(bc[4], 0)) or (bc[1] == "ne" and uconst(bc[4], 1)):
+        b_set, b_clear = body[3], body[2]
+    else:
         return fail("loop body does not test the low bit of the remaining exponent")
     def after(snap, hv):
         l = hv_of[hv][0]
@@ -927,7 +952,7 @@ def check_powi_loop(fx):
             if ll == l:
                 return v
     # identify the squared value: the havoc V with V' = V*V on both back edges
-    snap_t, snap_f = body[2][3], body[3][3]
+    snap_t, snap_f = b_set[3], b_clear[3]
     Vv = None
     for hv in hv_of:
         if hv is not R and hv is not Nn and after(snap_t, hv) is N.norm(mk("call", "op:mul:TwoFloat:TwoFloat", hv, hv)):
@@ -935,7 +960,7 @@ def check_powi_loop(fx):
     if Vv is None:
         return fail("no variable is squared on every iteration")
     sq = N.norm(mk("call", "op:mul:TwoFloat:TwoFloat", Vv, Vv))
-    half = mk("i", "shr", "u32", Nn, mk("const", "i32", 1))
+    half = mk("i", "shr", "u32", Nn, mk("const", "u32", 1))
     conds = [after(snap_t, R) is N.norm(mk("call", "op:mul:TwoFloat:TwoFloat", R, Vv)), after(snap_f, R) is R,
              after(snap_t, Vv) is sq, after(snap_f, Vv) is sq, after(snap_t, Nn) is half, after(snap_f, Nn) is half]
     if not all(conds):
